@@ -133,7 +133,8 @@ class ElfL(Layout):
 
     def __init__(self, R, idx, seq=0):
         rng = R.rng
-        self.machine, self.elfclass, self.be, self.ps, self.ptr = rng.choice(ELF_ARCHS)
+        # every third ELF dump: 32-bit class with program header entries larger than Elf32_Phdr
+        self.machine, self.elfclass, self.be, self.ps, self.ptr = rng.choice(ELF_ARCHS if seq % 3 != 1 else [a for a in ELF_ARCHS if a[1] == 32])
         ps = self.ps
         self.img = Image(rng, ps)
         voffs = VOFFS64 if self.elfclass == 64 else VOFFS32
@@ -193,13 +194,15 @@ class ElfL(Layout):
         rng.shuffle(order)
         self.path = R.path("c01-%d.elf" % idx)
         notes = vmcoreinfo_note(ps, self.be, self.elfclass)
+        # program header entries larger than the structure (e_phentsize > sizeof(Elf*_Phdr)), both ELF classes
+        self.phpad = R.rng.choice([0, 0, 0, 8, 24, 40] if seq % 3 != 1 else [8, 24, 40])
         with patched(self.img):
             dumpgen.write_elf(self.path, order, ps=ps, machine=self.machine, elfclass=self.elfclass, be=self.be,
-                              notes=notes)
+                              notes=notes, phpad=self.phpad)
         self.paths = [self.path]
         # file offsets as write_elf assigned them (program-header order); the padding behind each segment's file
         # data is filled with junk that no program header refers to
-        off = (((64 if self.elfclass == 64 else 52) + (len(order) + 1) * (56 if self.elfclass == 64 else 32) + len(notes))
+        off = (((64 if self.elfclass == 64 else 52) + (len(order) + 1) * ((56 if self.elfclass == 64 else 32) + self.phpad) + len(notes))
                + ps - 1) // ps * ps
         with open(self.path, "r+b") as f:
             for s in order:
